@@ -15,19 +15,28 @@ static void array_scenario(Report& rep, const char* name, uint64_t seed, int op)
 	enumerate_all(rep, name, [&] (int kind, long k) -> bool
 	{
 		Rnd r(seed);
-		size_t n = size_t(r.chance(1, 6) ? 0 : r.range(1, r.chance(1, 3) ? 80 : 9));
+		size_t n = size_t(r.chance(1, 6) ? 0 : r.range(1, r.chance(1, 3) ? (r.chance(1, 3) ? 400 : 80) : 9));    // up to 400: segment boundaries 32/64/192/320
 		size_t cnt = size_t(r.range(op == 0 ? 1 : 0, 5));
-		Arr arr{ kit::MM(1) };
+		Arr arr{ typename Arr::MemManager(1) };
 		if (r.chance(1, 2)) arr.Reserve(n + size_t(r.range(0, 8)));
 		for (size_t i = 0; i < n; ++i) arr.AddBack(E(int64_t(1000 + i)));
 		size_t idx = size_t(r.range(0, int(n)));
 		if (op >= 4 && n > 0) { idx = size_t(r.range(0, int(n) - 1)); cnt = std::min(cnt, n - idx); }
+		if (op == 4 && r.chance(1, 6)) { idx = n; cnt = 0; }               // boundary: index == count, nothing to remove
+		if (op <= 2 && r.chance(1, 5)) idx = r.chance(1, 2) ? 0 : n;        // boundaries: front / back
 		if (op >= 4 && n == 0) { idx = 0; cnt = 0; }
 		std::vector<E> items; items.reserve(cnt + 1);
 		for (size_t i = 0; i <= cnt; ++i) items.emplace_back(int64_t(5000 + i));
 		int mod = r.range(2, 4);
 		std::string tag = std::string(name) + " n=" + std::to_string(n) + " idx=" + std::to_string(idx) + " cnt=" + std::to_string(cnt) + " kind=" + std::to_string(kind) + " k=" + std::to_string(k);
 		Counters c0 = snap();
+		size_t cap0 = arr.GetCapacity();
+		if (k == 0 && kind == 0)
+		{
+			rep.ev(std::string("n_") + (n == 0 ? "0" : n <= 9 ? "1-9" : n <= 80 ? "10-80" : ">80"));
+			rep.ev(idx == 0 ? "idx_0" : idx == n ? "idx_eq_count" : idx + cnt == n ? "idx+cnt_eq_count" : "idx_inner");
+			if (cnt == 0) rep.ev("cnt_0");
+		}
 		arm_kind(kind, k);
 		bool ok = true; size_t removed = 0;
 		try
@@ -46,6 +55,7 @@ static void array_scenario(Report& rep, const char* name, uint64_t seed, int op)
 		bool f = done(kind);
 		Counters c1 = snap();
 		size_t count = arr.GetCount();
+		if (ok && arr.GetCapacity() != cap0) rep.ev("capacity_changed(grow)");
 		size_t nerr = kit::W().errors.size();
 		std::vector<int64_t> vals;
 		for (size_t i = 0; i < count; ++i) vals.push_back(arr[i].Value());       // every slot below count must be readable
@@ -118,7 +128,7 @@ static void std_scenario(Report& rep, const char* name, uint64_t seed, int srcId
 		Rnd r(seed);
 		std::vector<int64_t> sv, dv;
 		gen_values(r, MS::multi, MD::multi, sv, dv);
-		if (op == 1 && sv.empty()) sv.push_back(4242);
+		if ((op == 1 || op == 4) && sv.empty()) sv.push_back(4242);
 		typename MS::T src = MS::make(srcId);
 		typename MD::T dst = MD::make(dstId);
 		for (int64_t v : sv) src.insert(E(v));
@@ -149,6 +159,15 @@ static void std_scenario(Report& rep, const char* name, uint64_t seed, int srcId
 				}
 				catch (...) { rec(node); throw; }
 			}
+			else if constexpr (op == 4)
+			{
+				// node handle inserted WITH A HINT: a refused node must stay in the caller's handle (std: "nh remains unchanged")
+				auto it = src.begin(); size_t pos = size_t(r.range(0, int(src.size()) - 1)); for (size_t i = 0; i < pos; ++i) ++it;
+				auto node = src.extract(it);
+				auto rec = [&held] (typename MS::T::node_type& nd) { if (!nd.empty()) add(held, nd.value().Value()); };
+				try { dst.insert(r.chance(1, 2) ? dst.begin() : dst.end(), std::move(node)); } catch (...) { rec(node); throw; }
+				rec(node);
+			}
 			else if constexpr (op == 2) dst.insert(items.begin(), items.end());
 			else dst.insert({ items[0], items[1], items[2], items[3] });
 		}
@@ -156,7 +175,7 @@ static void std_scenario(Report& rep, const char* name, uint64_t seed, int srcId
 		bool f = done(kind);
 		Counters c1 = snap();
 		MSet s1 = values(src), d1 = values(dst);
-		if (op <= 1)
+		if (op <= 1 || op == 4)
 		{
 			MSet all = plus(plus(s1, d1), held);
 			if (op == 0 || ok) { if (all != init) rep.fail(tag + ": src+dst+node not conserved: src=" + show(s1) + " dst=" + show(d1) + " node=" + show(held)); }
@@ -245,6 +264,9 @@ static void std_map_scenario(Report& rep, const char* name, uint64_t seed, int s
 static const char* SCEN[] = {
 	"arr_insert_move", "arr_insert_count", "arr_insert_range", "arr_insert_il", "arr_remove", "arr_remove_pred",
 	"seg_insert_move", "seg_insert_count", "seg_insert_range", "seg_remove", "seg_remove_pred",
+	"arrint_insert_move", "arrint_insert_range", "arrint_remove", "arrint_remove_pred", "arrmmr_insert_count", "arrmmr_insert_move", "arrmmr_remove",
+	"segsqrt_insert_range", "segsqrt_insert_move", "segsqrt_remove",
+	"std_set_node_hint", "std_uset_node_hint", "std_mset_node_hint",
 	"std_set_merge_eq", "std_set_merge_ne", "std_mset_merge_ne", "std_set_mset_merge", "std_uset_merge_eq", "std_uset_merge_ne", "std_set_uset_merge_ne", "std_uset_set_merge_ne",
 	"std_set_node_eq", "std_set_node_ne", "std_uset_node_ne", "std_mset_node_eq",
 	"std_set_insert_range", "std_uset_insert_range", "std_mset_insert_il", "std_uset_insert_il",
@@ -257,6 +279,10 @@ static void run_scenario(Report& rep, const std::string& s, uint64_t seed)
 	typedef LE<C> E;
 	typedef momo::Array<E, kit::MM> Arr;
 	typedef momo::SegmentedArray<E, kit::MM> Seg;
+	typedef momo::Array<E, kit::MM, momo::ArrayItemTraits<E, kit::MM>, momo::ArraySettings<4>> ArrInt;      // internal capacity 4
+	typedef momo::Array<E, kit::MMR> ArrMMR;                                                                    // manager with Reallocate
+	typedef momo::SegmentedArray<E, kit::MM, momo::SegmentedArrayItemTraits<E, kit::MM>,
+		momo::SegmentedArraySettings<momo::SegmentedArrayItemCountFunc::sqrt>> SegSqrt;
 	const char* n = s.c_str();
 	if (s == "arr_insert_move") array_scenario<E, Arr>(rep, n, seed, 0);
 	else if (s == "arr_insert_count") array_scenario<E, Arr>(rep, n, seed, 1);
@@ -269,6 +295,19 @@ static void run_scenario(Report& rep, const std::string& s, uint64_t seed)
 	else if (s == "seg_insert_range") array_scenario<E, Seg>(rep, n, seed, 2);
 	else if (s == "seg_remove") array_scenario<E, Seg>(rep, n, seed, 4);
 	else if (s == "seg_remove_pred") array_scenario<E, Seg>(rep, n, seed, 5);
+	else if (s == "arrint_insert_move") array_scenario<E, ArrInt>(rep, n, seed, 0);
+	else if (s == "arrint_insert_range") array_scenario<E, ArrInt>(rep, n, seed, 2);
+	else if (s == "arrint_remove") array_scenario<E, ArrInt>(rep, n, seed, 4);
+	else if (s == "arrint_remove_pred") array_scenario<E, ArrInt>(rep, n, seed, 5);
+	else if (s == "arrmmr_insert_count") array_scenario<E, ArrMMR>(rep, n, seed, 1);
+	else if (s == "arrmmr_insert_move") array_scenario<E, ArrMMR>(rep, n, seed, 0);
+	else if (s == "arrmmr_remove") array_scenario<E, ArrMMR>(rep, n, seed, 4);
+	else if (s == "segsqrt_insert_range") array_scenario<E, SegSqrt>(rep, n, seed, 2);
+	else if (s == "segsqrt_insert_move") array_scenario<E, SegSqrt>(rep, n, seed, 0);
+	else if (s == "segsqrt_remove") array_scenario<E, SegSqrt>(rep, n, seed, 4);
+	else if (s == "std_set_node_hint") std_scenario<E, MkSS<E>, MkSS<E>, 4>(rep, n, seed, 1, 1);
+	else if (s == "std_uset_node_hint") std_scenario<E, MkSU<E>, MkSU<E>, 4>(rep, n, seed, 1, 2);
+	else if (s == "std_mset_node_hint") std_scenario<E, MkSM<E>, MkSM<E>, 4>(rep, n, seed, 1, 1);
 	else if (s == "std_set_merge_eq") std_scenario<E, MkSS<E>, MkSS<E>, 0>(rep, n, seed, 1, 1);
 	else if (s == "std_set_merge_ne") std_scenario<E, MkSS<E>, MkSS<E>, 0>(rep, n, seed, 1, 2);
 	else if (s == "std_mset_merge_ne") std_scenario<E, MkSM<E>, MkSM<E>, 0>(rep, n, seed, 1, 2);
@@ -296,13 +335,22 @@ static void run_scenario(Report& rep, const std::string& s, uint64_t seed)
 #ifndef C10_CAT
 #define C10_CAT kit::NTM
 #endif
-static const char* cat_name() { return C10_CAT == kit::NTM ? "NTM" : C10_CAT == kit::SMH ? "SMH" : C10_CAT == kit::THM ? "THM" : "CPY"; }
+static const char* cat_name() { return C10_CAT == kit::TRIV ? "TRIV" : C10_CAT == kit::NTM ? "NTM" : C10_CAT == kit::SMH ? "SMH" : C10_CAT == kit::THM ? "THM" : "CPY"; }
 
 int main(int argc, char** argv)
 {
 	if (argc > 1 && std::string(argv[1]) == "--list")
 	{
 		for (const char* s : SCEN) std::cout << s << " " << cat_name() << "\n";
+		return 0;
+	}
+	if (argc > 1 && std::string(argv[1]) == "--types")
+	{
+		typedef LE<C10_CAT> E;
+		std::cout << "array_int internalCapacity=" << momo::Array<E, kit::MM, momo::ArrayItemTraits<E, kit::MM>, momo::ArraySettings<4>>::Settings::internalCapacity << "\n";
+		std::cout << "std_set nested " << type_name(typeid(typename StdSet<E>::nested_container_type)) << "\n";
+		std::cout << "std_uset bucket " << type_name(typeid(typename StdUSet<E>::nested_container_type::Bucket)) << "\n";
+		std::cout << "std_map default nested extraCheck=" << int(StdMap<E>::nested_container_type::Settings::extraCheckMode) << "\n";
 		return 0;
 	}
 	std::string line;
